@@ -63,6 +63,9 @@ PromoMember(col, f, ok, pc, sq) ==
       b1 == IF pc = 0 THEN b0 ELSE Place(b0, sq, Pc(1 - col, pc))
   IN [b |-> b1, stm |-> col, cr |-> {}, ep |-> 0]
 
+Abs(x) == IF x < 0 THEN -x ELSE x
+Dist(a, b) == LET df == Abs(File(a) - File(b))  dr == Abs(Rank(a) - Rank(b)) IN IF df > dr THEN df ELSE dr
+
 Init == stage = 0 /\ c = 0 /\ k = 0 /\ pos = None /\ idx = 0
 
 Level1 ==
@@ -71,6 +74,7 @@ Level1 ==
   /\ CASE Family = "castle" -> k' \in (1..64) \ (IF c' = 0 THEN {5, 1, 8} ELSE {61, 57, 64})
        [] Family = "rookcap" -> k' \in (1..64) \ (IF c' = 1 THEN {5, 1, 8} ELSE {61, 57, 64})   \* capturer's king
        [] Family = "terminal" -> k' \in 1..64    \* strong side's king
+       [] Family \in {"mating", "avoid"} -> k' \in {s \in 1..64 : File(s) \in {1, 8} \/ Rank(s) \in {1, 8}}   \* the bare king, on the edge
        [] Family = "ep" -> k' \in 1..8           \* file of the capturing pawn
        [] Family = "promo" -> k' \in 1..8        \* file of the pawn
        [] OTHER -> k' = 0
@@ -98,6 +102,14 @@ Level2 ==
             \E pc \in {Q, R} : \E sq \in (1..64) \ {k} : \E wk \in (1..64) \ {k, sq} :
               /\ pos' = [b |-> Place(Place(Place(Empty, k, Pc(c, K)), sq, Pc(c, pc)), wk, Pc(1 - c, K)), stm |-> 1 - c, cr |-> {}, ep |-> 0]
               /\ idx' = pc + 8 * sq + 512 * wk
+       [] Family \in {"mating", "avoid"} ->
+            \* king + queen / rook (colour c) near the bare king (on the edge, square k).  "mating": the strong side to move;
+            \* "avoid": the bare king to move.  Which members have a mate in one / moves that walk into one is decided by Emit...
+            \E pc \in {Q, R} : \E sk \in (1..64) \ {k} : \E sq \in (1..64) \ {k, sk} :
+              /\ Dist(sk, k) \in 2..3
+              /\ pos' = [b |-> Place(Place(Place(Empty, sk, Pc(c, K)), sq, Pc(c, pc)), k, Pc(1 - c, K)),
+                         stm |-> IF Family = "mating" THEN c ELSE 1 - c, cr |-> {}, ep |-> 0]
+              /\ idx' = pc + 8 * sq + 512 * sk
        [] Family = "ep" ->
             \E vf \in {k - 1, k + 1} \cap (1..8) : \E ok \in 1..64 : \E pc \in {0, Q, R, B} : \E sq \in 1..64 :
               LET r == EpRank(c)  cap == Sq(k, r)  vic == Sq(vf, r)  tgt == IF c = 0 THEN vic + 8 ELSE vic - 8
@@ -137,4 +149,12 @@ Emit == (stage = 2 /\ Kept /\ Cardinality(Kings(pos.b, 0)) = 1 /\ Cardinality(Ki
 \* run on every one of them: a go must be answered with the null move)
 EmitTerminal == (stage = 2 /\ Kept /\ Cardinality(Kings(pos.b, 0)) = 1 /\ Cardinality(Kings(pos.b, 1)) = 1 /\ WellFormed(pos) /\ Legal(pos) = {}) =>
                   PrintT(<<"TERM", ToFen(pos, 0, 1), InCheck(pos.b, pos.stm)>>)
+\* mate in one: the moves of the side to move that give checkmate; a position is "dangerous" for its mover when the
+\* opponent could answer some but not all of its moves with a mate in one
+Mates(p) == {m \in Legal(p) : LET q == Apply(p, m) IN InCheck(q.b, q.stm) /\ Legal(q) = {}}
+Losing(p) == {m \in Legal(p) : Mates(Apply(p, m)) # {}}
+Sound == stage = 2 /\ Kept /\ Cardinality(Kings(pos.b, 0)) = 1 /\ Cardinality(Kings(pos.b, 1)) = 1 /\ WellFormed(pos)
+EmitMating == (Sound /\ Mates(pos) # {}) => PrintT(<<"MATE1", ToFen(pos, 0, 1), {MoveText(m) : m \in Mates(pos)}>>)
+EmitAvoid == (Sound /\ LET L == Losing(pos) IN L # {} /\ L # Legal(pos)) =>
+               PrintT(<<"AVOID", ToFen(pos, 0, 1), {MoveText(m) : m \in Losing(pos)}>>)
 =============================================================================
